@@ -17,6 +17,8 @@ pub struct Case {
     pub pw_a: BSpec,
     pub pw_b: BSpec,
     pub pw_x: BSpec,
+    /// common prefix of the three credential identifiers (they differ only in their tail)
+    pub cred_base: BSpec,
     pub ctx: Option<BSpec>,
     pub explicit_server_id: bool,
     /// all start calls draw from ONE rng (in the generated order) instead of one tape each
@@ -31,16 +33,22 @@ pub fn strategy(_s: &'static dyn Proto) -> BoxedStrategy<Case> {
         gen::bytes_small(),
         gen::bytes_small(),
         gen::bytes_small(),
+        prop_oneof![
+            2 => Just(BSpec::Lit(b"cred-".to_vec())),
+            2 => gen::bytes_small(),
+            2 => (prop::sample::select(vec![40usize, 64, 100, 128, 200, 300, 1000]), any::<u64>()).prop_map(|(len, seed)| BSpec::Filled { len, seed }),
+        ],
         gen::opt_ctx(gen::bytes_small()),
         any::<bool>(),
         any::<bool>(),
         any::<u64>(),
         gen::tape_plain(),
     )
-        .prop_map(|(pw_a, pw_b, pw_x, ctx, explicit_server_id, share_rng, order, tape)| Case {
+        .prop_map(|(pw_a, pw_b, pw_x, cred_base, ctx, explicit_server_id, share_rng, order, tape)| Case {
             pw_a,
             pw_b,
             pw_x,
+            cred_base,
             ctx,
             explicit_server_id,
             share_rng,
@@ -76,7 +84,13 @@ pub fn check(s: &'static dyn Proto, c: &Case, st: &mut Stats, _k: &KnownFindings
     while pw_x == pw_a || pw_x == pw_b {
         pw_x.push(b'x');
     }
-    let creds: [Vec<u8>; 3] = [b"cred-A".to_vec(), b"cred-B".to_vec(), b"cred-C".to_vec()];
+    let base = c.cred_base.bytes();
+    let mk = |tail: &[u8]| {
+        let mut v = base.clone();
+        v.extend_from_slice(tail);
+        v
+    };
+    let creds: [Vec<u8>; 3] = [mk(b"A"), mk(b"B"), mk(b"C")];
     let ctx = c.ctx.as_ref().map(|b| b.bytes());
     let sid = if c.explicit_server_id { Some(b"the-server".to_vec()) } else { None };
     let ids = Ids {
@@ -250,7 +264,7 @@ pub const BUDGET: Budget = Budget {
 pub fn run(cfg: &RunCfg) -> (Outcome, EvidenceExtra) {
     let out = run_property(cfg, "C07", crate::suites::suites20(), BUDGET, strategy, check);
     let ev = EvidenceExtra {
-        rule: "case = history on one server: registrations {A(pwA,credA), B(pwB,credB), C(pwA,credC), A'(re-registration of A), none}, client sessions {A, A again, B, A with a wrong password} started in a generated order, every (request, record, credential id) server session (4*5*3 = 60) started in a generated order; all start calls draw either from one shared RNG or from a tape each (generated). Enumerated exhaustively per history: every response delivered to every client session (240 finishes on clones) and every resulting finalization delivered to every pending server session. Oracle = explicit model: client i accepts the response (request j, record, cred) iff j = i, the record exists, its password is the session's and cred is the record's; server session k completes only on the finalization produced from its own response; keys agree within a completed session; all completed sessions have pairwise distinct session keys; both directions asserted (exactly 7 conversations complete). evaluation = one delivery; non-trivial = deliveries that are not the in-order honest ones; distinct per (suite, case)".into(),
+        rule: "case = history on one server: registrations {A(pwA,credA), B(pwB,credB), C(pwA,credC), A'(re-registration of A), none} whose three credential identifiers share a generated prefix of 0..1000 bytes and differ in the last byte, client sessions {A, A again, B, A with a wrong password} started in a generated order, every (request, record, credential id) server session (4*5*3 = 60) started in a generated order; all start calls draw either from one shared RNG or from a tape each (generated). Enumerated exhaustively per history: every response delivered to every client session (240 finishes on clones) and every resulting finalization delivered to every pending server session. Oracle = explicit model: client i accepts the response (request j, record, cred) iff j = i, the record exists, its password is the session's and cred is the record's; server session k completes only on the finalization produced from its own response; keys agree within a completed session; all completed sessions have pairwise distinct session keys; both directions asserted (exactly 7 conversations complete). evaluation = one delivery; non-trivial = deliveries that are not the in-order honest ones; distinct per (suite, case)".into(),
         assumptions: vec!["routing is exhaustive for the bounded population; histories (orders, RNG sharing, inputs) are sampled".into()],
         exhaustive: Some(true),
         extra: [("exhaustive_part".to_string(), json!("all routings of the bounded population, per generated history"))].into_iter().collect(),
